@@ -187,9 +187,30 @@ class JinjaIndex:
         base = copy.deepcopy(self._flatten_source(parent.value, parsed, seen | {name}))
         own_blocks = {b.name: b for b in tree.find_all(nodes.Block)}
         # outside blocks a child prints nothing; its top-level statements that bind names run before the layout
-        prelude = [n for n in tree.body if isinstance(n, (nodes.Assign, nodes.AssignBlock, nodes.Import, nodes.FromImport, nodes.Macro))]
+        prelude = self._child_prelude(tree.body)
         tree.body = prelude + splice(base.body, own_blocks)
         return tree
+
+    @staticmethod
+    def _child_prelude(body: list[nodes.Node]) -> list[nodes.Node]:
+        """what a child template executes before the layout is rendered: its top-level statements outside blocks - also those that bind
+        names under a condition or in a loop (`{% if imports %}{% set exports = ... %}{% endif %}`) - with everything they would print
+        dropped (a child prints nothing outside blocks)"""
+        def strip(ns: list[nodes.Node]) -> list[nodes.Node]:
+            out: list[nodes.Node] = []
+            for n in ns:
+                if isinstance(n, (nodes.Output, nodes.Extends, nodes.Block)):
+                    continue
+                for fld in ("body", "else_"):
+                    sub = getattr(n, fld, None)
+                    if isinstance(sub, list) and not isinstance(n, (nodes.Macro, nodes.AssignBlock, nodes.CallBlock)):
+                        setattr(n, fld, strip(sub))
+                for el in getattr(n, "elif_", []) or []:
+                    el.body = strip(el.body)
+                out.append(n)
+            return out
+
+        return strip(body)
 
     def _flatten_source(self, name: str, parsed: dict[str, Any], seen: set[str]) -> nodes.Template:
         """the parent as written (blocks still in place, its own parent's layout resolved)"""
@@ -218,7 +239,7 @@ class JinjaIndex:
                 out.append(n)
             return out
 
-        prelude = [n for n in tree.body if isinstance(n, (nodes.Assign, nodes.AssignBlock, nodes.Import, nodes.FromImport, nodes.Macro))]
+        prelude = self._child_prelude(tree.body)
         tree.body = prelude + swap(base.body)
         return tree
 
